@@ -71,6 +71,25 @@ impl Nu {
         self.boot()
     }
 
+    /// The commands loop ignores calls it finds in history (by design: no replay). Wait
+    /// until it is past its threshold: call a trivial command until a call is answered.
+    pub fn ready_commands(&mut self) -> Check {
+        self.append("xsv.ready.define", ZERO, Some(b"{run: {|frame| \"ready\"}}"), None)?;
+        let deadline = Instant::now() + Duration::from_secs(30);
+        loop {
+            let c = self.append("xsv.ready.call", ZERO, None, None)?;
+            let (_, ok) = self.wait(Duration::from_millis(40), |fr| {
+                fr.iter().any(|w| w.topic == "xsv.ready.complete" && meta_of(w, "frame_id").as_deref() == Some(&c.id))
+            })?;
+            if ok {
+                return Ok(());
+            }
+            if Instant::now() > deadline {
+                return Err(infra("the commands loop did not become live within 30 s"));
+            }
+        }
+    }
+
     pub fn register_ctx(&mut self) -> Result<u128, Fail> {
         Ok(must(
             "register context",
